@@ -116,7 +116,7 @@ def model_ops(E, layout, per, subs, tasks, slots, steps, serial=True):
             ch = sorted(key(c) for c in d["children"] if c in tasks)
             cnt = steps[0]["C"].get(it, -1) if steps else -1
             exp.append("task %d %d %s locks=[%s] children=[%s] reset=%d parents=%d" % (
-                g, slot, names.get(d["type"], "?"), " ".join(str(x) for x in sorted(set(d["locks"]))),
+                g, slot, names.get(d["type"], "?"), " ".join(str(x) for x in d["locks"]),   # in the order set_dependency / set_extra_dependency
                 " ".join("%d:%d" % c for c in ch), cnt, cnt))
             ops.append("order %d %d %s" % (g, slot, " ".join("%d %d" % key(c) for c in d["children"] if c in tasks)))
             exp.append("order perm")
@@ -265,6 +265,6 @@ def replay(ctx, path):
 
 MANIFEST = dict(
     category="proof",
-    text="Lean theorems for EVERY layout nx x ny x nz, every periodicity (incl. 1 or 2 subgrids on a periodic axis), every number of threads and every interleaving of the worker actions: the hydro task graph is a well-formed DAG (child lists = inverse of parent lists with multiplicity, reset counters = in-degrees, <= 7 children, locks cover the touched subgrids and are distinct); over any well-formed graph the worker loop executes every task exactly once, never before its parents, never two tasks on one subgrid, number_of_tasks = queued+running, never stuck while > 0, strictly decreasing measure (termination), stable end. Tied to the code by the dumped task tables and by replaying every event of real multi-thread runs through the model (hook H3), plus the same statements evaluated directly on the trace.",
+    text="Lean theorems for EVERY layout nx x ny x nz, every periodicity (incl. 1 or 2 subgrids on a periodic axis), every number of threads and every interleaving of the worker actions: the hydro task graph is a well-formed DAG (child lists = inverse of parent lists with multiplicity, reset counters = in-degrees, <= 7 children, locks cover the touched subgrids, are distinct and are taken in increasing subgrid index (hydro_lock_order; no_lockstep_cycle: with that order a round in which every waiting pair task fails on its second lock is impossible); over any well-formed graph the worker loop executes every task exactly once, never before its parents, never two tasks on one subgrid, number_of_tasks = queued+running, never stuck while > 0, strictly decreasing measure (termination), stable end. Tied to the code by the dumped task tables and by replaying every event of real multi-thread runs through the model (hook H3), plus the same statements evaluated directly on the trace.",
     note="Trusted: Lean kernel + 3 axioms; hand model of make_hydro_tasks/set_dependencies/reset_hydro_tasks/worker loop; task-level atomicity (the lock part is proved in C08: pop_is_atomic_acquire, running_tasks_conflict_free; assumed: a sweep touches only its lock set); sequentially consistent atomics; trace hook takes a global mutex; runs that do not finish in 90 s are reported as non-termination.",
     technique="Lean 4 proof (inductive invariant over arbitrary interleavings, generic over well-formed task graphs + well-formedness of the hydro graph for all layouts) + trace refinement check against the real binary")
